@@ -40,6 +40,8 @@ def molecules():
                                       ("C3", "C", add(nn, pol(1.45, 0)))], ["NAM", "O2"])
     m["fluoromethane"] = ("FME", [("C1", "C", (0, 0, 0)), ("F1", "F", (1350, 0, 0))], ["F"])
     m["chloromethane"] = ("CLM", [("C1", "C", (0, 0, 0)), ("CL1", "Cl", (1770, 0, 0))], ["Cl"])
+    m["bromomethane"] = ("BRM", [("C1", "C", (0, 0, 0)), ("BR1", "Br", (1940, 0, 0))], [])
+    m["iodomethane"] = ("IOM", [("C1", "C", (0, 0, 0)), ("I1", "I", (2140, 0, 0))], [])
     m["methanol"] = ("MOH", [("C1", "C", (0, 0, 0)), ("O1", "O", (1430, 0, 0))], ["OH"])
     o1 = tet(0, 1.60)
     m["methylphosphate"] = ("MPO", [("P1", "P", (0, 0, 0)), ("O1", "O", o1), ("C1", "C", add(o1, tet(0, 1.43))), ("O2", "O", tet(1, 1.52)),
